@@ -508,6 +508,44 @@ def _local_s_state(ctx, b, local):
     return st0
 
 
+def _returned_s_state(ctx, f):
+    """N / S if every value the function returns is a split table built with LEFT in that state (and untouched afterwards)"""
+    if ctx.facts.types[f.locals[0]["ty"]].get("adt") != ctx.roles.S:
+        return None
+    states = set()
+    for rb in f.return_blocks():
+        for d in f.defs_reaching(Loc(rb, len(f.stmts(rb))), 0):
+            if d[3] == "assign" and d[4]["rv"]["k"] == "aggregate" and d[4]["rv"].get("adt") == ctx.roles.S:
+                from rules_typestate import _opt_value_state
+                states.add(_opt_value_state(f, d[4]["rv"]["ops"][ctx.roles.S_left]))
+            elif d[3] == "assign" and d[4]["rv"]["k"] == "use" and d[4]["rv"]["op"]["k"] in ("copy", "move") and not d[4]["rv"]["op"]["place"]["proj"]:
+                states.add(_local_s_state(ctx, f, d[4]["rv"]["op"]["place"]["local"]))
+            else:
+                states.add(None)
+    return states.pop() if len(states) == 1 else None
+
+
+def _local_s_state_after(ctx, b, local, from_loc, to_loc):
+    """the local split table is neither written nor mutably borrowed (as a whole, or its pending-resize field) anywhere in the body"""
+    ro = ctx.roles
+
+    def touches(pl):
+        p = b.expand(pl, alias=True)
+        if p.root != local:
+            return False
+        fs = p.fields()
+        return not fs or (fs[0][1] == ro.S and fs[0][2] == ro.S_left)
+    for loc, st in b.all_assigns():
+        if b.is_cleanup(loc.bb):
+            continue
+        if st["place"]["proj"] and touches(st["place"]):
+            return False
+        rv = st["rv"]
+        if rv["k"] in ("ref", "rawptr") and rv.get("mut") and touches(rv["place"]):
+            return False
+    return True
+
+
 def rule_t_dbg(ctx):
     R = RuleResult("T-dbg", "every debug-only assertion about whether a resize is pending is implied by what the (release) code establishes anyway, so the "
                    "debug build never stops where the release build would continue")
@@ -562,6 +600,43 @@ def rule_t_dbg(ctx):
                 if st_local == kind:
                     ok = True
                     how = "the table is a local value constructed with LEFT=%s and neither it nor that field is written or mutably borrowed afterwards" % kind
+            if not ok and s_path is not None and not s_path.fields() and not (1 <= s_path.root <= b.arg_count):
+                # a table returned by a griddle function that always builds it in that state (clone_with_hasher: LEFT = None)
+                d0 = b.unique_def(s_path.root)
+                if d0 is not None and d0[1] == "call":
+                    lc0 = ctx.call_at(b, d0[0].bb).local_callee()
+                    if lc0 is not None and _returned_s_state(ctx, lc0) == kind and _local_s_state_after(ctx, b, s_path.root, d0[0], c.loc):
+                        ok = True
+                        how = "the table is the result of %s, which always returns a table with LEFT=%s, and is not written or mutably borrowed since" % (lc0.path, kind)
+            if not ok and s_path is not None:
+                # established by a dominating call on the same table whose summary ends in that state (clone_from_with_hasher: LEFT = None),
+                # with no other mutable access to the table in between
+                T_ = ctx.facts.types
+                for c2 in ctx.calls(b):
+                    lc2 = c2.local_callee()
+                    if lc2 is None or lc2.path not in ts.summary or b.is_cleanup(c2.loc.bb) or c2.loc == c.loc or not b.dominates(c2.loc, c.loc):
+                        continue
+                    rp = c2.arg_path(0)
+                    if rp is None or rp.strip_refs().key() != s_path.strip_refs().key() or ts.summ(lc2.path, TOP) != kind:
+                        continue
+                    dirty = False
+                    for x in between_blocks(b, c2.loc.bb, c.loc.bb):
+                        if b.term(x)["k"] != "call":
+                            continue
+                        cc = ctx.call_at(b, x)
+                        if cc is None:
+                            continue
+                        for i_, a_ in enumerate(cc.args):
+                            if a_["k"] in ("copy", "move"):
+                                at_ = T_[a_["place"]["ty"]]
+                                q_ = cc.arg_path(i_)
+                                if at_.get("k") == "ref" and at_.get("mut") and q_ is not None and q_.strip_refs().key()[0] == s_path.key()[0] \
+                                        and (q_.startswith(s_path) or s_path.startswith(q_)):
+                                    dirty = True
+                    if not dirty:
+                        ok = True
+                        how = "%s, called on the same table before the assertion, always ends with LEFT=%s and nothing mutates the table in between" % (lc2.path, kind)
+                        break
             if not ok and kind == S:
                 # correlation: dominated by the OLD edge of a bucket returned by find() on the same table, nothing invalidating in between
                 for e, (bkey, side) in flag_edges(ctx, b).items():
